@@ -253,3 +253,11 @@ Example container_element_example :
   read gen_schemas no_hands false [XFree] 8 [] (TVec TI32) (PArr [PInt 1; PRef 5 0; PInt 2]) = TOk (VVec [VInt 1; VInt 2])
   /\ read gen_schemas no_hands false [XFree] 8 [] (TVec (TOption TI32)) (PArr [PInt 1; PRef 5 0]) = TOk (VVec [VSome (VInt 1); VNone]).
 Proof. vm_compute. split; reflexivity. Qed.
+
+(** * open finding C18-e: the generation number of a reference is ignored.  file.rs: resolve_ref looks the object up by
+      number only ([resolve E id] — the table carries no generation); every in-use object of the generated files has
+      generation 0, so `i 1 R` designates an undefined object and should read as null (ISO 32000-1 7.3.10), but it reads
+      as object `i 0`. *)
+Lemma generation_ignored_refuted : exists E i g, g <> 0 /\ nth_error E (N.to_nat i) = Some (XObj (PInt 7)) /\
+  read gen_schemas no_hands false E 8 [] (TOption TI32) (PRef i g) = TOk (VSome (VInt 7)).
+Proof. exists [XFree; XObj (PInt 7)], 1, 1. split; [discriminate|]. split; [reflexivity|]. vm_compute. reflexivity. Qed.
